@@ -256,7 +256,8 @@ class UiSpinner(Spinner):
             label = "%s (%s)\n" % (label, self.timer.rounded)
         else:
             label = label + "\n"
-        self.stream.write(label)
+        # the label contains names from the configuration: the stream may not be able to encode them
+        auto_encode(self.stream, label)
         self.counter += 1
 
 
